@@ -15,7 +15,9 @@ import time
 
 VERIF = os.path.dirname(os.path.dirname(os.path.abspath(__file__)))
 SPEC = os.path.join(VERIF, "spec")
-HARNESS = os.path.join(VERIF, "harness")
+# VERIF_HARNESS lets tools/mutant.sh point the checks at a scratch copy of the harness crate whose path
+# dependency is a scratch copy of /repo (seeded-change experiments); registered commands never set it.
+HARNESS = os.environ.get("VERIF_HARNESS") or os.path.join(VERIF, "harness")
 EVID = os.path.join(VERIF, "evidence")
 KNOWN = os.path.join(VERIF, "known_findings.txt")
 REPLAYS = os.path.join(VERIF, "replays")
